@@ -140,6 +140,71 @@ def elem_of(t):
     raise Untypable(f'not a container: {show_type(t)}')
 
 
+# the engine's function registry (Functions.scala: a call resolves iff the parameter types and the return type of a registered function,
+# with type variables bound at their first occurrence, unify with the argument types and the declared return type).  Oracle-side
+# transcription of ArrayFunctions / SetFunctions / DictFunctions / StringFunctions.contains — patterns: ('v', name) a type variable,
+# ('Array', p), ('Set', p), ('Dict', pk, pv), ('Tuple2', pa, pb), or a concrete type tuple.
+_T, _K, _V = ('v', 'T'), ('v', 'key'), ('v', 'value')
+_B, _S = ('Boolean',), ('String',)
+REGISTRY = {
+    'append': [([('Array', _T), _T], ('Array', _T))],
+    'extend': [([('Array', _T), ('Array', _T)], ('Array', _T))],
+    'flatten': [([('Array', ('Array', _T))], ('Array', _T))],
+    'toSet': [([('Array', _T)], ('Set', _T))],
+    'isEmpty': [([('Array', _T)], _B), ([('Set', _T)], _B), ([('Dict', _K, _V)], _B)],
+    'contains': [([('Array', _T), _T], _B), ([('Set', _T), _T], _B), ([('Dict', _K, _V), _K], _B), ([_S, _S], _B)],
+    'add': [([('Set', _T), _T], ('Set', _T))],
+    'remove': [([('Set', _T), _T], ('Set', _T))],
+    'union': [([('Set', _T), ('Set', _T)], ('Set', _T))],
+    'intersection': [([('Set', _T), ('Set', _T)], ('Set', _T))],
+    'difference': [([('Set', _T), ('Set', _T)], ('Set', _T))],
+    'isSubset': [([('Set', _T), ('Set', _T)], _B)],
+    'get': [([('Dict', _K, _V), _K, _V], _V), ([('Dict', _K, _V), _K], ('v', 'tvalue'))],
+    'index': [([('Dict', _K, _V), _K], _V)],
+    'keySet': [([('Dict', _K, _V)], ('Set', _K))],
+    'keys': [([('Dict', _K, _V)], ('Array', _K))],
+    'values': [([('Dict', _K, _V)], ('Array', _V))],
+    'dict': [([('Set', ('Tuple2', _K, _V))], ('Dict', _K, _V)), ([('Array', ('Tuple2', _K, _V))], ('Dict', _K, _V))],
+}
+
+
+def _show_pat(p):
+    if p[0] == 'v':
+        return p[1]
+    if p[0] in ('Array', 'Set'):
+        return f'{p[0]}[{_show_pat(p[1])}]'
+    if p[0] == 'Dict':
+        return f'Dict[{_show_pat(p[1])},{_show_pat(p[2])}]'
+    if p[0] == 'Tuple2':
+        return f'Tuple[{_show_pat(p[1])},{_show_pat(p[2])}]'
+    return p[0]
+
+
+def reg_unify(p, t, sub):
+    if p[0] == 'v':
+        if p[1] in sub:
+            return sub[p[1]] == t
+        sub[p[1]] = t
+        return True
+    if p[0] in ('Array', 'Set'):
+        return t[0] == p[0] and reg_unify(p[1], t[1], sub)
+    if p[0] == 'Dict':
+        return t[0] == 'Dict' and reg_unify(p[1], t[1], sub) and reg_unify(p[2], t[2], sub)
+    if p[0] == 'Tuple2':
+        return t[0] == 'Tuple' and len(t[1]) == 2 and reg_unify(p[1], t[1][0], sub) and reg_unify(p[2], t[1][1], sub)
+    return p == t
+
+
+def registry_ok(fn, arg_types, ret):
+    for params, r in REGISTRY.get(fn, []):
+        if len(params) != len(arg_types):
+            continue
+        sub = {}
+        if all(reg_unify(p, t, sub) for p, t in zip(params + [r], list(arg_types) + [ret])):
+            return True
+    return False
+
+
 def py_infer(s, env):
     h = s[0]
 
@@ -314,6 +379,12 @@ def py_infer(s, env):
         elif fn in ('land', 'lor'):
             need(sub(args[0]) == ('Boolean',) and sub(args[1]) == ('Boolean',), 'boolean operands')
             t = ('Boolean',)
+        elif fn in REGISTRY:
+            ats = [sub(a) for a in args]
+            need(registry_ok(fn, ats, declared),
+                 f'no registered function {fn}({", ".join(show_type(a) for a in ats)}): {show_type(declared)} — the engine registers '
+                 + ' | '.join('(' + ', '.join(_show_pat(p) for p in ps) + ') -> ' + _show_pat(r) for ps, r in REGISTRY[fn]))
+            t = declared
         else:
             raise Untypable(f'function {fn} is outside the modelled set')
         need(t == declared, f'declared return type {show_type(declared)} but the rule gives {show_type(t)}')
@@ -445,9 +516,18 @@ class ExprGen:
                 return ['f32', rng.choice([0, 1, 2, -3])], 'f32'
             return (['f64', rng.choice([0, 1, 2, -3, 10])] if rng.random() < 0.6 else ['pyfloat', rng.choice([0, 2, -1])]), 'f64'
         o = rng.choice(['bin', 'bin', 'bin', 'div', 'neg', 'if', 'cast', 'index', 'fold', 'fold', 'wfold', 'wfold', 'field', 'tidx', 'len', 'let',
-                        'dindex', 'coalesce', 'case', 'switch', 'or_missing'])
+                        'dindex', 'coalesce', 'case', 'switch', 'or_missing', 'dget', 'dget'])
         if want is not None and o in ('div', 'len', 'dindex', 'wfold', 'coalesce', 'case', 'switch'):
             o = 'bin'
+        if o == 'dget':
+            # dict<K, V>.get(key[, default]) / dict[key] with a key and a default of OTHER numeric kinds: they must be coerced before the call
+            k0, _ = self.num(env, 0, rng.choice(NUMS))
+            v0, tv = self.num(env, d - 1, want)
+            dct = ['todict', ['array', [['tuple', [k0, v0]]]]]
+            key, _ = self.num(env, 0)
+            if rng.random() < 0.25:
+                return ['dindex', dct, key], tv
+            return ['method', 'get', dct, [key] + ([self.num(env, 0)[0]] if rng.random() < 0.5 else [])], tv
         if o == 'wfold':
             # a fold whose function returns something WIDER (or narrower) than its zero: the front end re-runs the function with a
             # widened accumulator / coerces the body
@@ -544,7 +624,21 @@ class ExprGen:
         rng = self.rng
         if d <= 0 or rng.random() < 0.3:
             return ['bool', rng.random() < 0.5]
-        o = rng.choice(['cmp', 'cmp', 'not', 'and', 'isdef', 'strcmp'])
+        o = rng.choice(['cmp', 'cmp', 'not', 'and', 'isdef', 'strcmp', 'contains', 'contains', 'subset'])
+        if o == 'contains':
+            # array / set / dict .contains(item) with an item of another numeric kind
+            kind = rng.choice(['arr', 'arr', 'set', 'dict'])
+            item, _ = self.num(env, 0)
+            if kind == 'arr':
+                return ['method', 'contains', self.array_num(env, d - 1)[0], [item]]
+            t = rng.choice(NUMS)
+            elems = [self.num(env, 0, t)[0] for _ in range(rng.choice([1, 2]))]
+            if kind == 'set':
+                return ['method', 'contains', ['set', elems], [item]]
+            return ['method', 'contains', ['todict', ['array', [['tuple', [e, ['bool', True]]] for e in elems]]], [item]]
+        if o == 'subset':
+            ta, tb = rng.choice(NUMS), rng.choice(NUMS)
+            return ['method', 'is_subset', ['set', [self.num(env, 0, ta)[0]]], [['set', [self.num(env, 0, tb if rng.random() < 0.5 else ta)[0]]]]]
         if o == 'cmp':
             a, _ = self.num(env, d - 1)
             b, _ = self.num(env, d - 1)
@@ -561,7 +655,22 @@ class ExprGen:
     def array_num(self, env, d, want=None):
         """-> (program of an array of numbers, element kind)"""
         rng = self.rng
-        o = rng.choice(['mk', 'mk', 'lit', 'map', 'filter', 'missing', 'scan', 'scan', 'ifarr']) if d > 0 else rng.choice(['mk', 'lit'])
+        o = (rng.choice(['mk', 'mk', 'lit', 'map', 'filter', 'missing', 'scan', 'scan', 'ifarr', 'append', 'append', 'extend', 'dkeys'])
+             if d > 0 else rng.choice(['mk', 'lit']))
+        if o in ('append', 'extend'):
+            # a.append(x) / a.extend(b) where the item / the other array has the SAME element kind, a narrower one (coercible) or a wider one
+            a, ta = self.array_num(env, d - 1, want)
+            tx = ta if rng.random() < 0.4 else rng.choice(NUMS)
+            if o == 'append':
+                return ['method', 'append', a, [self.num(env, d - 1 if rng.random() < 0.3 else 0, tx)[0]]], ta
+            return ['method', 'extend', a, [self.array_num(env, 0, tx)[0]]], ta
+        if o == 'dkeys':
+            tk = want or rng.choice(NUMS)
+            tv = rng.choice(NUMS)
+            dct = ['todict', ['array', [['tuple', [self.num(env, 0, tk)[0], self.num(env, 0, tv)[0]]]]]]
+            if want is None and rng.random() < 0.5:
+                return ['method', 'values', dct, []], tv
+            return ['method', 'keys', dct, []], tk
         if o == 'scan':
             a, te = self.array_num(env, d - 1)
             z, tz = self.num(env, 0, want)
@@ -623,6 +732,17 @@ class ExprGen:
             return s
         if o == 'tuple':
             return ['tuple', [self.num([], d - 1)[0], ['str', 's'], self.array_num([], d - 1)[0]]]
+        if o == 'set' and rng.random() < 0.6:
+            # set methods with an item / another set of a different numeric kind
+            ta = rng.choice(NUMS)
+            st = ['set', [self.num([], 0, ta)[0] for _ in range(rng.choice([1, 2]))]]
+            m = rng.choice(['add', 'add', 'remove', 'union', 'intersection', 'difference', 'key_set'])
+            if m in ('add', 'remove'):
+                return ['method', m, st, [self.num([], d - 1 if rng.random() < 0.3 else 0)[0]]]
+            if m == 'key_set':
+                return ['method', 'key_set', ['todict', ['array', [['tuple', [self.num([], 0, ta)[0], self.boolean([], 0)]]]]], []]
+            tb = ta if rng.random() < 0.5 else rng.choice(NUMS)
+            return ['method', m, st, [['set', [self.num([], 0, tb)[0]]]]]
         if o == 'set':
             return ['set', [self.num([], d - 1)[0] for _ in range(rng.choice([1, 2, 3]))]]
         if o == 'dict':
@@ -1035,7 +1155,10 @@ class C36(Prop):
     rule = ('case kinds: expr (45%) = random program over hl.int32/int64/float32/float64/literal/missing, + - * / //, unary -, ~, '
 'comparisons, & |, if_else (also over arrays / structs of different numeric types), case, switch, coalesce, or_else, or_missing, '
             'is_defined, bind, array/set/dict/tuple/struct construction, indexing, len, map/filter/fold/scan (incl. folds and scans whose '
-            'function widens the zero), field access, annotate — every node of the emitted IR is rendered with the type the front end '
+            'function widens the zero), field access, annotate, the collection methods with arguments of coercible-but-different numeric '
+            'types (array append / extend / contains, set add / remove / contains / union / intersection / difference / is_subset, dict get '
+            '(key, default) / contains / [key] / keys / values / key_set), every Apply of those families checked against the transcribed '
+            'engine registry signatures (type variables unified over arguments and return type) — every node of the emitted IR is rendered with the type the front end '
             'attached to it (every Ref with the type it was built with) and the model / the twin rules re-derive all of them; impute (35%) = random nested Python value (None, bool, int incl. 32/64-bit boundaries, float, str, list, '
             'tuple, frozenset, dict, hl.Struct; homogeneous and heterogeneous); table (20%) = 1-6 Table API calls (annotate, '
 'annotate_globals, select, drop, key_by, filter, order_by, rename, explode) from range_table; tunion (10%) = t0.union(t1, … '
@@ -1173,6 +1296,8 @@ class C36(Prop):
             return hl.dict(b(p[1]))
         if k == 'dindex':
             return b(p[1])[b(p[2])]
+        if k == 'method':
+            return getattr(self._as_expr(b(p[2])), p[1])(*[b(a) for a in p[3]])
         raise ValueError(k)
 
     def render_typed(self, x):
